@@ -1,6 +1,7 @@
 import PyecoreModel.Lemmas.XmiValues
 import PyecoreModel.Lemmas.XmiDoc
 import PyecoreModel.Lemmas.XmiDocRefs
+import PyecoreModel.Lemmas.XmiDocIds
 import PyecoreModel.Properties.C11
 /-!
 # C08 — XMI save then load reproduces the model  (**partial: layer theorems; the composition is decided by the check**)
@@ -21,8 +22,16 @@ Proved here are the layers the round trip is made of, each for *all* its inputs:
 * L5 order of many-valued bidirectional references: `C08_reorder`.
 * "whatever loads is well-formed": load only uses the Store's public operations, so `inv_run` / `typed_run`
   (C01–C03) apply to its result; the check verifies C01–C03 on every loaded model.
-**Not proved**: the composition of the layers over a whole containment tree with two-pass reference resolution.  It is
-decided on every run by the isomorphism oracle on generated (metamodel, model, options) triples.
+The composition of the layers is proved at the level of the XML element tree (`Model/XmiDoc.lean`):
+* `C08_element_roundtrip`: decoding the element written for a well-formed object tree gives its normal form — any depth,
+  any number of children, every feature kind, every option;
+* `C08_document`: the whole forest with two-pass reference resolution, given that each token resolves back;
+* `C08_fragment_text`, `C08_document_fragment`: that hypothesis discharged for fragment addressing;
+* `C08_key_resolves`, `C08_document_addressing`: … and for every addressing mode (uuid, id attribute value, fragment),
+  under the only condition that no two objects go by the same key.
+**Not proved**: the text level below the element tree (lxml's parsing and escaping), namespaces/prefixes, cross-resource
+references and proxies, and that pyecore's objects correspond to the model's trees.  These are decided on every run by
+the correspondence (`driver xdoc`) and by the isomorphism oracle on generated (metamodel, model, options) triples.
 -/
 namespace Xmi
 
@@ -212,5 +221,169 @@ example :
       simp only [List.mem_singleton] at hk
       subst hk
       exact AllRefs.mk _ _ _ _ _ (by intro e he; cases he) (by intro k hk; cases hk)
+
+end XDoc
+
+namespace XDoc
+open Xmi
+
+/-- **Document-level round trip, every addressing mode — no resolution hypothesis left.**  Whatever the resource uses to
+    address a target (its uuid in a uuid resource, the value of its id attribute when that can stand as a token, its
+    fragment path otherwise): for every forest of well-formed objects whose references point, by canonical path, at
+    objects of the forest, and in which no two objects go by the same key, loading the saved document gives every
+    root's normal form with every reference on its original target. -/
+theorem C08_document_addressing (mm : MMX) (o : Opts) (hmm : MMOK mm) (hid : IdOK mm) (single : Bool) (roots : List (SNode Path))
+    (hsingle : single = true → roots.length = 1)
+    (hwf : ∀ r ∈ roots, WFG mm (Target mm single roots) r)
+    (hrefs : ∀ r ∈ roots, AllRefs (Target mm single roots) r)
+    (huuid : o.uuid = true → ∀ q m, (q, m) ∈ allNodes mm roots → UuidTok m.uuid ∧ Word mm.ws m.uuid)
+    (hdist : ∀ q m q' m' k, (q, m) ∈ allNodes mm roots → (q', m') ∈ allNodes mm roots →
+      k ∈ keysOf mm o m → k ∈ keysOf mm o m' → q = q') :
+    (encodeDoc mm o (renderPath single) roots).bind (decodeDoc mm o parsePath) = some (roots.map (eff mm o true)) :=
+  doc_roundtrip_addr mm o hmm hid single roots hsingle hwf hrefs huuid hdist
+
+/-- a key that can stand as a token resolves to the object that goes by it, in the forest as loaded -/
+theorem C08_key_resolves {P : Path → Prop} (mm : MMX) (o : Opts) (hmm : MMOK mm) (hid : IdOK mm) (roots : List (SNode Path))
+    (g : Path → Str) (parse : Str → Option Path)
+    (hwf : ∀ r ∈ roots, WFG mm P r)
+    (hdist : ∀ q m q' m' k, (q, m) ∈ allNodes mm roots → (q', m') ∈ allNodes mm roots →
+      k ∈ keysOf mm o m → k ∈ keysOf mm o m' → q = q')
+    (p : Path) (n : SNode Path) (hp : (p, n) ∈ allNodes mm roots) (k : Str) (hk : k ∈ keysOf mm o n) (hshape : UuidTok k) :
+    resolveTok mm o parse (roots.map fun r => eff mm o true (mapT g r)) k = some p :=
+  resolveTok_key mm o hmm hid roots g parse hwf hdist p n hp k hk hshape
+
+/-! non-vacuity: a forest with uuids and an id attribute meets every hypothesis of `C08_document_addressing` -/
+
+def idMM : MMX :=
+  { nCls := 1
+    cname := fun _ => "A".toList
+    feats := fun _ => [⟨"n".toList, .attr, false, none, 0, true, false⟩, ⟨"kids".toList, .cont, true, none, 0, false, false⟩,
+                       ⟨"to".toList, .ref, false, none, 0, false, false⟩]
+    ws := fun c => c == ' ' }
+
+def idForest : List (SNode Path) :=
+  [.mk [] 0 "u0".toList [("n".toList, .attr1 "x y".toList), ("kids".toList, .kids), ("to".toList, .ref1 ⟨0, [("kids".toList, some 0)]⟩)]
+     [.mk "kids".toList 0 "u1".toList [("n".toList, .attr1 "k".toList)] []]]
+
+theorem idMM_ok : MMOK idMM := by
+  refine ⟨by decide, ?_, ?_, ?_⟩
+  · intro c fi hfi
+    simp only [idMM, List.mem_cons, List.mem_nil_iff, or_false] at hfi
+    rcases hfi with rfl | rfl | rfl <;> rfl
+  · intro c; show ((idMM.feats 0).map (·.name)).Nodup; decide
+  · intro c hc
+    have : c = 0 := by simp [idMM] at hc; omega
+    subst this; decide
+
+/-- the whole pipeline on this forest: uuid mode; id mode (the child goes by its id `k`, the root's id `x y` is no token so
+    its fragment is used) -/
+example : (encodeDoc idMM ⟨false, true⟩ (renderPath true) idForest).bind (decodeDoc idMM ⟨false, true⟩ parsePath)
+    = some (idForest.map (eff idMM ⟨false, true⟩ true)) := by decide +kernel
+example : (encodeDoc idMM ⟨false, false⟩ (renderPath true) idForest).bind (decodeDoc idMM ⟨false, false⟩ parsePath)
+    = some (idForest.map (eff idMM ⟨false, false⟩ true)) := by decide +kernel
+example : tokenOf idMM ⟨false, false⟩ (renderPath true) idForest ⟨0, [("kids".toList, some 0)]⟩ = "k".toList := by decide +kernel
+
+theorem idMM_idok : IdOK idMM := by
+  intro c fi hfi hi _
+  simp only [idMM, List.mem_cons, List.mem_nil_iff, or_false] at hfi
+  rcases hfi with rfl | rfl | rfl
+  · exact ⟨rfl, rfl⟩
+  · cases hi
+  · cases hi
+
+theorem idForest_nodes : allNodes idMM idForest =
+    [(⟨0, []⟩, .mk [] 0 "u0".toList [("n".toList, .attr1 "x y".toList), ("kids".toList, .kids), ("to".toList, .ref1 ⟨0, [("kids".toList, some 0)]⟩)]
+        [.mk "kids".toList 0 "u1".toList [("n".toList, .attr1 "k".toList)] []]),
+     (⟨0, [("kids".toList, some 0)]⟩, .mk "kids".toList 0 "u1".toList [("n".toList, .attr1 "k".toList)] [])] := by
+  decide +kernel
+
+
+example :
+    (∀ r ∈ idForest, WFG idMM (Target idMM true idForest) r) ∧
+    (∀ r ∈ idForest, AllRefs (Target idMM true idForest) r) ∧
+    (∀ o : Opts, o.uuid = true → ∀ q m, (q, m) ∈ allNodes idMM idForest → UuidTok m.uuid ∧ Word idMM.ws m.uuid) ∧
+    (∀ o : Opts, ∀ q m q' m' k, (q, m) ∈ allNodes idMM idForest → (q', m') ∈ allNodes idMM idForest →
+      k ∈ keysOf idMM o m → k ∈ keysOf idMM o m' → q = q') := by
+  have htarget : Target idMM true idForest ⟨0, [("kids".toList, some 0)]⟩ := by
+    refine ⟨⟨_, by rw [idForest_nodes]; exact List.mem_cons_of_mem _ (List.mem_singleton.mpr rfl)⟩, ?_, ?_⟩
+    · intro s hs
+      simp only [List.mem_singleton] at hs
+      subst hs
+      exact ⟨⟨by decide, by decide⟩, by decide⟩
+    · refine ⟨by decide, ?_⟩
+      intro c hc
+      have : c ∈ "//@kids.0".toList := hc
+      simp only [String.toList] at this
+      revert c
+      decide
+  refine ⟨?_, ?_, ?_, ?_⟩
+  · intro r hr
+    simp only [idForest, List.mem_singleton] at hr
+    subst hr
+    refine WFG.mk _ _ _ _ _ (by decide) (by decide) ?_ ?_ ?_ ?_
+    · intro e he
+      simp only [List.mem_cons, List.mem_nil_iff, or_false] at he
+      rcases he with rfl | rfl | rfl
+      · exact ⟨_, rfl, Or.inr ⟨rfl, rfl⟩⟩
+      · exact ⟨_, rfl, Or.inr rfl⟩
+      · exact ⟨_, rfl, Or.inr ⟨rfl, rfl, htarget⟩⟩
+    · intro k hk
+      simp only [List.mem_singleton] at hk
+      subst hk
+      refine WFG.mk _ _ _ _ _ (by decide) (by decide) ?_ (by intro k hk; cases hk) (by intro k hk; cases hk)
+        (by intro fi _ _ _; simp)
+      intro e he
+      simp only [List.mem_singleton] at he
+      subst he
+      exact ⟨_, rfl, Or.inr ⟨rfl, rfl⟩⟩
+    · intro k hk
+      simp only [List.mem_singleton] at hk
+      subst hk
+      exact ⟨_, rfl, rfl, by decide⟩
+    · intro fi hfi _ hm
+      simp only [idMM, List.mem_cons, List.mem_nil_iff, or_false] at hfi
+      rcases hfi with rfl | rfl | rfl <;> simp_all
+  · intro r hr
+    simp only [idForest, List.mem_singleton] at hr
+    subst hr
+    refine AllRefs.mk _ _ _ _ _ ?_ ?_
+    · intro e he
+      simp only [List.mem_cons, List.mem_nil_iff, or_false] at he
+      rcases he with rfl | rfl | rfl
+      · trivial
+      · trivial
+      · exact htarget
+    · intro k hk
+      simp only [List.mem_singleton] at hk
+      subst hk
+      exact AllRefs.mk _ _ _ _ _ (by intro e he; cases he; trivial; rename_i h; cases h) (by intro k hk; cases hk)
+  · intro o _ q m hm
+    rw [idForest_nodes] at hm
+    simp only [List.mem_cons, List.mem_nil_iff, or_false, Prod.mk.injEq] at hm
+    rcases hm with ⟨_, rfl⟩ | ⟨_, rfl⟩
+    · refine ⟨⟨by decide, 'u', "0".toList, rfl, by decide⟩, by decide, ?_⟩
+      intro c hc
+      have : c ∈ "u0".toList := hc
+      simp only [String.toList] at this
+      revert c; decide
+    · refine ⟨⟨by decide, 'u', "1".toList, rfl, by decide⟩, by decide, ?_⟩
+      intro c hc
+      have : c ∈ "u1".toList := hc
+      simp only [String.toList] at this
+      revert c; decide
+  · intro o q m q' m' k hm hm' hk hk'
+    rw [idForest_nodes] at hm hm'
+    simp only [List.mem_cons, List.mem_nil_iff, or_false, Prod.mk.injEq] at hm hm'
+    rcases hm with ⟨rfl, rfl⟩ | ⟨rfl, rfl⟩ <;> rcases hm' with ⟨rfl, rfl⟩ | ⟨rfl, rfl⟩
+    · rfl
+    · exfalso
+      cases hu : o.uuid <;> simp [keysOf, hu, idValue, idMM, SNode.cls, SNode.slots, SNode.uuid] at hk hk'
+      · subst hk; revert hk'; decide
+      · rcases hk with rfl | rfl <;> revert hk' <;> decide
+    · exfalso
+      cases hu : o.uuid <;> simp [keysOf, hu, idValue, idMM, SNode.cls, SNode.slots, SNode.uuid] at hk hk'
+      · subst hk; revert hk'; decide
+      · rcases hk with rfl | rfl <;> revert hk' <;> decide
+    · rfl
 
 end XDoc
